@@ -31,9 +31,9 @@ import (
 // bound, with a non-nil error, and whether anything is delivered afterwards.
 
 const (
-	settleTime  = 60 * time.Millisecond   // time given to the worker to reach the blocking state
-	returnBound = 4 * time.Second         // "bounded time" of the property, generous (measured: ~100 us)
-	lateWatch   = 60 * time.Millisecond   // how long deliveries are watched for after the return
+	settleTime  = 60 * time.Millisecond // time given to the worker to reach the blocking state
+	returnBound = 4 * time.Second       // "bounded time" of the property, generous (measured: ~100 us)
+	lateWatch   = 60 * time.Millisecond // how long deliveries are watched for after the return
 )
 
 const syscallNonblock = syscall.O_NONBLOCK
